@@ -168,6 +168,7 @@ def replay(data):
 
 
 def check(run):
+  sj.RICH_TRANS[0] = True      # exp/log carry their elementary bounds, so that counterexamples involving them replay
   tier = run.tier
   timeout = 60.0 if tier == 'quick' else 240.0
   C, T = (3, 2) if tier == 'quick' else (4, 3)
